@@ -256,6 +256,8 @@ func (m *fakeMaster) runScript(c net.Conn, mc *masterConn, acts []action) bool {
 					ServerID: binary.LittleEndian.Uint32(p[7:11]), File: string(p[11:])})
 				mc.order = append(mc.order, "dump")
 				m.mu.Unlock()
+				// a repeated request gets the refusal again (so that the replica's call returns and the count is reported)
+				writePacket(c, 1, append([]byte{0xff, 0xd4, 0x04, '#', 'H', 'Y', '0', '0', '0'}, []byte("dump request repeated")...))
 			}
 			if len(p) > 0 && p[0] == 0x03 {
 				m.mu.Lock()
